@@ -90,5 +90,14 @@ func (c *queryCache) removeOrder(key string) {
 }
 
 func cacheKey(query string) string {
-	return strings.ToLower(strings.Join(strings.Fields(query), " "))
+	// ASCII-only case folding, as the parser does: Unicode folding maps other
+	// letters (U+212A KELVIN SIGN -> k) onto ASCII ones, so two different
+	// texts would share one cached decision.
+	key := []byte(strings.Join(strings.Fields(query), " "))
+	for i, c := range key {
+		if c >= 'A' && c <= 'Z' {
+			key[i] = c + ('a' - 'A')
+		}
+	}
+	return string(key)
 }
